@@ -218,8 +218,8 @@ class Universe:
 
 def typed(v):
     """Value together with its type, recursively - 'equal values of equal types'."""
-    if isinstance(v, tuple):
-        return ("tuple", tuple(typed(x) for x in v))
+    if isinstance(v, tuple):   # a tuple subclass (named tuple) is a type of its own
+        return (type(v).__name__, tuple(typed(x) for x in v))
     if isinstance(v, frozenset):
         return ("frozenset", frozenset(typed(x) for x in v))
     return (type(v).__name__, v)
